@@ -15,7 +15,7 @@ RULE = (
     "yields every callback invocation (callback id, occurrence, step) of the scenario; EVERY one of them (cap 60 per scenario, counted) is "
     "then made to raise on a fresh instance, and for a generated subset a second failure is injected into a later step of the faulty run; "
     "queued events that turn out not to be allowed (TransitionNotAllowed inside the drain) occur from the scripts. Oracle = reference "
-    "interpreter: the very exception object raised escapes the outermost call; state = source if the failure was in validators/conditions/"
+    "interpreter: the very exception object raised (the harness' exception, a library TransitionNotAllowed raised by user code, or a ValueError, in rotation) escapes the outermost call; state = source if the failure was in validators/conditions/"
     "before/exit/on, target if in enter/after (as the interpreter's own state says, also under rtc=False nesting); queued events are dropped: "
     "the remaining history must produce exactly the interpreter's log (no stale event, machine not wedged). "
     "evaluations = injected runs; non-trivial = crash point not in the first callback group of the first event of its step, or events were "
@@ -28,6 +28,7 @@ ASSUMPTIONS = [
     "reference interpreter trusted",
 ]
 BUDGET_IS_TOTAL = True
+SHRINK_CALLS = 25  # every call enumerates all crash points of a scenario
 
 
 class Clean(Play):
@@ -68,9 +69,14 @@ class Faulty(Play):
                     self.later.append({"step": i, "cbid": t[1], "occ": t[2]})
 
 
+KINDS = ["boom", "boom", "tna", "value"]
+
+
 def inject(case, points):
     c = dict(case)
-    c["faults"] = {str(p["step"]): [p["cbid"], p["occ"]] for p in points}
+    # the kind of exception rotates with the crash point: the harness' own exception, the library's TransitionNotAllowed
+    # raised by user code, a builtin exception
+    c["faults"] = {str(p["step"]): [p["cbid"], p["occ"], KINDS[(p["occ"] + p.get("pos", 0) + len(p["cbid"])) % len(KINDS)]] for p in points}
     return c
 
 
